@@ -1334,3 +1334,118 @@ Proof.
   destruct (qstep (pre_cfg sc) (fst q) a t) as [q1 d].
   destruct d; try (destruct (spec_requests sc _ a reqs) as [[p2 l] c]); reflexivity.
 Qed.
+
+(** * The bystander at the server: an address whose calls so far all fit under both maxima is served *)
+Definition pinv (b : N) (p : qstate * qstate) (c : N) : Prop :=
+  count b (q_counted (fst p)) <= c /\ count b (q_counted (snd p)) <= c.
+
+Lemma pinv_after_host b sh q1 p c c' :
+  pinv b p c -> count b (q_counted q1) <= c' -> c <= c' -> pinv b (after_host sh q1 p) c'.
+Proof. intros [H1 H2] Hq Hle. unfold after_host, pinv. destruct sh; cbn [fst snd]; lia. Qed.
+Lemma pinv_after_pre b sh q1 p c c' :
+  pinv b p c -> count b (q_counted q1) <= c' -> c <= c' -> pinv b (after_pre sh q1 p) c'.
+Proof. intros [H1 H2] Hq Hle. unfold after_pre, pinv. destruct sh; cbn [fst snd]; lia. Qed.
+
+Lemma spec_requests_counted sc b a : forall ts p c,
+  pinv b p c -> pinv b (fst (fst (spec_requests sc p a ts))) (c + (if a =? b then N.of_nat (length ts) else 0)).
+Proof.
+  induction ts as [|t r IH]; intros p c Hp; cbn [spec_requests].
+  - cbn [fst length]. destruct Hp. split; destruct (a =? b); lia.
+  - pose proof (qstep_counted_le (host_cfg sc) (snd p) a t b) as Hq.
+    destruct (qstep (host_cfg sc) (snd p) a t) as [q1 d]. cbn [fst] in Hq.
+    assert (Hp1 : pinv b (after_host (shared sc) q1 p) (c + (if a =? b then 1 else 0))).
+    { eapply pinv_after_host; [exact Hp| |destruct (a =? b); lia]. destruct Hp. lia. }
+    specialize (IH (after_host (shared sc) q1 p) _ Hp1).
+    destruct d.
+    + destruct (spec_requests sc _ a r) as [[p2 l] cc]. cbn [fst length] in *.
+      destruct IH. split; destruct (a =? b); lia.
+    + destruct (spec_requests sc _ a r) as [[p2 l] cc]. cbn [fst length] in *.
+      destruct IH. split; destruct (a =? b); lia.
+    + cbn [fst length]. destruct Hp1. split; destruct (a =? b); lia.
+Qed.
+
+Lemma spec_conn_counted sc b p c a t reqs :
+  pinv b p c -> pinv b (fst (spec_conn sc p a t reqs)) (c + (if a =? b then 1 + N.of_nat (length reqs) else 0)).
+Proof.
+  intros Hp. unfold spec_conn.
+  pose proof (qstep_counted_le (pre_cfg sc) (fst p) a t b) as Hq.
+  destruct (qstep (pre_cfg sc) (fst p) a t) as [q1 d]. cbn [fst] in Hq.
+  assert (Hp1 : pinv b (after_pre (shared sc) q1 p) (c + (if a =? b then 1 else 0))).
+  { eapply pinv_after_pre; [exact Hp| |destruct (a =? b); lia]. destruct Hp. lia. }
+  pose proof (spec_requests_counted sc b a reqs _ _ Hp1) as Hr.
+  destruct d.
+  - destruct (spec_requests sc _ a reqs) as [[p2 l] cc]. cbn [fst] in *. destruct Hr. split; destruct (a =? b); lia.
+  - destruct (spec_requests sc _ a reqs) as [[p2 l] cc]. cbn [fst] in *. destruct Hr. split; destruct (a =? b); lia.
+  - cbn [fst]. destruct Hp1. split; destruct (a =? b); lia.
+Qed.
+
+Lemma spec_requests_bystander sc b : forall ts p c,
+  pinv b p c -> c + N.of_nat (length ts) <= max_requests (host_cfg sc) ->
+  snd (fst (spec_requests sc p b ts)) = repeat Normal (length ts) /\ snd (spec_requests sc p b ts) = false.
+Proof.
+  induction ts as [|t r IH]; intros p c Hp Hc; cbn [spec_requests length repeat] in *; [split; reflexivity|].
+  pose proof (qstep_counted_le (host_cfg sc) (snd p) b t b) as Hq. rewrite N.eqb_refl in Hq.
+  pose proof (qstep_passed (host_cfg sc) (snd p) b t) as Hpass.
+  destruct (qstep (host_cfg sc) (snd p) b t) as [q1 d]. cbn [fst snd] in *.
+  rewrite Hpass by (destruct Hp; lia).
+  assert (Hp1 : pinv b (after_host (shared sc) q1 p) (c + 1)).
+  { eapply pinv_after_host; [exact Hp| |lia]. destruct Hp. lia. }
+  destruct (IH _ _ Hp1 ltac:(lia)) as [E1 E2].
+  destruct (spec_requests sc _ b r) as [[p2 l] cc]. cbn [fst snd] in *. subst. split; reflexivity.
+Qed.
+
+Lemma spec_conn_bystander sc b p c t reqs :
+  pinv b p c -> c + 1 + N.of_nat (length reqs) <= min_max sc ->
+  snd (spec_conn sc p b t reqs) = Served (repeat Normal (length reqs)) false.
+Proof.
+  intros Hp Hc. unfold min_max in Hc. unfold spec_conn.
+  pose proof (qstep_counted_le (pre_cfg sc) (fst p) b t b) as Hq. rewrite N.eqb_refl in Hq.
+  pose proof (qstep_passed (pre_cfg sc) (fst p) b t) as Hpass.
+  destruct (qstep (pre_cfg sc) (fst p) b t) as [q1 d]. cbn [fst snd] in *.
+  rewrite Hpass by (destruct Hp; lia).
+  assert (Hp1 : pinv b (after_pre (shared sc) q1 p) (c + 1)).
+  { eapply pinv_after_pre; [exact Hp| |lia]. destruct Hp. lia. }
+  destruct (spec_requests_bystander sc b reqs _ _ Hp1 ltac:(lia)) as [E1 E2].
+  destruct (spec_requests sc _ b reqs) as [[p2 l] cc]. cbn [fst snd] in *. subst. reflexivity.
+Qed.
+
+Lemma spec_events_bystander sc b t reqs evs2 : forall evs1 p f c,
+  pinv b p c -> loop_spec f evs1 = Running ->
+  c + ev_calls_of b evs1 + 1 + N.of_nat (length reqs) <= min_max sc ->
+  nth_error (fst (spec_events sc p f (evs1 ++ Conn b t reqs :: evs2))) (length (filter is_conn evs1))
+  = Some (Served (repeat Normal (length reqs)) false).
+Proof.
+  induction evs1 as [|e r IH]; intros p f c Hp Hrun Hc.
+  - cbn [app filter length ev_calls_of] in *. rewrite spec_events_conn. cbn [fst nth_error].
+    rewrite (spec_conn_bystander sc b p c t reqs Hp) by lia. reflexivity.
+  - destruct e as [a t' reqs'| | | |oh a t']; cbn [app filter is_conn length ev_calls_of loop_spec] in *.
+    + rewrite spec_events_conn. cbn [fst nth_error].
+      apply (IH _ 0 _ (spec_conn_counted sc b p c a t' reqs' Hp) Hrun). lia.
+    + cbn [spec_events]. destruct (fail_threshold <? f + 1); [discriminate|]. apply (IH p (f + 1) c Hp Hrun Hc).
+    + cbn [spec_events]. apply (IH p f c Hp Hrun Hc).
+    + discriminate.
+    + cbn [spec_events]. destruct oh.
+      * pose proof (qstep_counted_le (host_cfg sc) (snd p) a t' b) as Hq.
+        apply (IH _ f (c + (if a =? b then 1 else 0))); [|exact Hrun|lia].
+        eapply pinv_after_host; [exact Hp| |destruct (a =? b); lia]. destruct Hp. lia.
+      * pose proof (qstep_counted_le (pre_cfg sc) (fst p) a t' b) as Hq.
+        apply (IH _ f (c + (if a =? b then 1 else 0))); [|exact Hrun|lia].
+        eapply pinv_after_pre; [exact Hp| |destruct (a =? b); lia]. destruct Hp. lia.
+Qed.
+
+(** At the server: whatever happened before (any connections and requests of anybody, accept errors,
+    calls of other tasks) — as long as the listener has not been ended by a shutdown request or
+    101 accept errors in a row — a client whose calls so far, this connection and its requests
+    included, are at most the smaller configured maximum is accepted and every request is answered
+    normally. *)
+Lemma server_bystander_model checked sc t0 evs1 b t reqs evs2 :
+  fits (ev_calls_bound (evs1 ++ Conn b t reqs :: evs2)) ->
+  loop_spec 0 evs1 = Running ->
+  ev_calls_of b evs1 + 1 + N.of_nat (length reqs) <= min_max sc ->
+  nth_error (fst (accept_loop checked sc t0 (evs1 ++ Conn b t reqs :: evs2))) (length (filter is_conn evs1))
+  = Some (Served (repeat Normal (length reqs)) false).
+Proof.
+  intros Hf Hrun Hc. rewrite (server_events_model checked sc t0 _ Hf). unfold spec_server_events.
+  apply (spec_events_bystander sc b t reqs evs2 evs1 _ 0 0); [|exact Hrun|lia].
+  split; cbn [qinit fst snd q_counted count]; lia.
+Qed.
